@@ -218,7 +218,12 @@ Definition run_1404 (input impl : sx) : sx :=
          before, the model's source-path calls name only srcRoot and what lies below it (no link followed) *)
       let rd := reads_inside f sroot (s_reads s') in
       let ok := outside_unchanged rel sb sa && N.eqb di0 di1 && negb (N.eqb di0 0) && N.leb err 1 && rd in
-      verdict model impl ok (SL [SN (if outside_unchanged rel sb sa then 0 else 1); SN di0; SN di1; SN err; SN (if rd then 0 else 1)])
+      (* out of the model's scope, exactly: the model ran out of its recursion bound (copy_fuel = 64
+         levels: a copy that nests into itself, which the real code pursues until ENAMETOOLONG).  The
+         model is then not compared, the specification still is evaluated on what the implementation did. *)
+      let fuel_out := match res with inr 4 => true | _ => false end%N in
+      verdict (if fuel_out then impl else model) impl ok
+              (SL [SN (if outside_unchanged rel sb sa then 0 else 1); SN di0; SN di1; SN err; SN (if rd then 0 else 1)])
     | _, _, _, _ => v_malformed
     end
   | _, _ => v_malformed
